@@ -7,14 +7,20 @@
 //!    predicts for the observed result (refusal => unchanged; success => exactly the stated effect),
 //!  * evaluates the structural invariants I1a/I1b/I1c on that snapshot with its own code,
 //!  * serialises and re-parses the document (I2),
-//!  * issues every resolution query of the universe in every scope and compares with the set of
-//!    answers the model allows (I4).
+//!  * issues every resolution query of the universe in every scope, through the shared and the mutable
+//!    resolution entry point and in every form a query can be handed over (string slice, `&String`, `&DIDUrl`,
+//!    owned `DIDUrl`, `&RelativeDIDUrl`), and compares with the set of answers the model allows (I4).
+//!
+//! Entries (methods, services) are produced through both construction routes (builder API and JSON), with every
+//! kind of key material including custom method data.
+use identity_core::common::{Object, Url};
 use identity_core::convert::{FromJson, ToJson};
 use identity_did::{CoreDID, DIDUrl};
 use identity_document::document::{CoreDocument, DocumentBuilder};
 use identity_document::service::{Service, ServiceEndpoint};
 use identity_iota_core::IotaDocument;
-use identity_verification::{MethodData, MethodRef, MethodRelationship, MethodScope, MethodType, VerificationMethod};
+use identity_verification::jwk::Jwk;
+use identity_verification::{CustomMethodData, MethodData, MethodRef, MethodRelationship, MethodScope, MethodType, VerificationMethod};
 use serde_json::{json, Value};
 use std::collections::hash_map::DefaultHasher;
 use std::collections::{BTreeMap, HashSet};
@@ -104,6 +110,16 @@ impl Uni {
   }
 }
 
+/// How a query is handed to the library (every conversion into the library's query type).
+#[derive(Clone, Copy, PartialEq, Eq, Debug)]
+enum Pass {
+  Str,
+  StringRef,
+  UrlRef,
+  UrlOwned,
+  RelRef,
+}
+
 /// A resolution query: what it denotes for the model (`did`, `frag`) and how it is handed to the library.
 #[derive(Clone)]
 struct Qry {
@@ -111,7 +127,36 @@ struct Qry {
   frag: u8,
   text: String,
   url: Option<DIDUrl>,
+  pass: Pass,
   form: &'static str,
+}
+
+/// Calls `$body` with `$x` bound to the query in the form `$q.pass` says.
+macro_rules! with_query {
+  ($q:expr, |$x:ident| $body:expr) => {
+    match $q.pass {
+      Pass::Str => {
+        let $x = $q.text.as_str();
+        $body
+      }
+      Pass::StringRef => {
+        let $x = &$q.text;
+        $body
+      }
+      Pass::UrlRef => {
+        let $x = $q.url.as_ref().expect("query without url");
+        $body
+      }
+      Pass::UrlOwned => {
+        let $x = $q.url.clone().expect("query without url");
+        $body
+      }
+      Pass::RelRef => {
+        let $x = $q.url.as_ref().expect("query without url").url();
+        $body
+      }
+    }
+  };
 }
 
 impl Qry {
@@ -124,17 +169,37 @@ fn build_queries(u: &Uni) -> Vec<Qry> {
   let mut v = Vec::new();
   for id in u.all_ids() {
     let form = if id.var == 0 { "full-id" } else { "full-id-pathquery" };
-    v.push(Qry { did: Some(id.did), frag: id.frag, text: u.s(id), url: None, form });
+    v.push(Qry { did: Some(id.did), frag: id.frag, text: u.s(id), url: None, pass: Pass::Str, form });
   }
   for f in 0..u.frags.len() as u8 {
-    v.push(Qry { did: None, frag: f, text: u.frags[f as usize].to_string(), url: None, form: "bare-fragment" });
+    v.push(Qry { did: None, frag: f, text: u.frags[f as usize].to_string(), url: None, pass: Pass::Str, form: "bare-fragment" });
   }
   for id in u.all_ids() {
-    v.push(Qry { did: Some(id.did), frag: id.frag, text: u.s(id), url: Some(u.url(id).clone()), form: "full-id-as-DIDUrl" });
+    v.push(Qry { did: Some(id.did), frag: id.frag, text: u.s(id), url: Some(u.url(id).clone()), pass: Pass::UrlRef, form: "full-id-as-DIDUrl" });
   }
   for f in 0..u.frags.len() as u8 {
-    v.push(Qry { did: None, frag: f, text: format!("#{}", u.frags[f as usize]), url: None, form: "hash-fragment" });
-    v.push(Qry { did: None, frag: f, text: format!("{}#{}", VARS[1], u.frags[f as usize]), url: None, form: "relative-url" });
+    v.push(Qry { did: None, frag: f, text: format!("#{}", u.frags[f as usize]), url: None, pass: Pass::Str, form: "hash-fragment" });
+    v.push(Qry { did: None, frag: f, text: format!("{}#{}", VARS[1], u.frags[f as usize]), url: None, pass: Pass::Str, form: "relative-url" });
+  }
+  // the remaining conversions into the library's query type: a DID URL handed over by value, a `&String`,
+  // and the relative part of a DID URL (which carries no DID: it denotes the fragment only)
+  for id in u.all_ids() {
+    v.push(Qry { did: Some(id.did), frag: id.frag, text: u.s(id), url: Some(u.url(id).clone()), pass: Pass::UrlOwned, form: "full-id-as-owned-DIDUrl" });
+  }
+  for id in u.all_ids() {
+    if id.var == 0 {
+      v.push(Qry { did: Some(id.did), frag: id.frag, text: u.s(id), url: None, pass: Pass::StringRef, form: "full-id-as-String-ref" });
+    }
+  }
+  for f in 0..u.frags.len() as u8 {
+    v.push(Qry { did: None, frag: f, text: u.frags[f as usize].to_string(), url: None, pass: Pass::StringRef, form: "bare-fragment-as-String-ref" });
+  }
+  for id in u.all_ids() {
+    if id.did == 0 {
+      let rel = u.url(id).url().to_string();
+      assert_eq!(rel, format!("{}#{}", VARS[id.var as usize], u.frags[id.frag as usize]), "setup: relative part of a universe id");
+      v.push(Qry { did: None, frag: id.frag, text: rel, url: Some(u.url(id).clone()), pass: Pass::RelRef, form: "relative-part-as-RelativeDIDUrl" });
+    }
   }
   v
 }
@@ -331,23 +396,40 @@ fn tag_from_digits(s: &str) -> Option<u32> {
 const MB_PREFIX: &str = "z6MkhaXgBZDvotDkL5257faiztiGiC2QtKLGpbnnEGta";
 const B58_PREFIX: &str = "3M5RCDjPTWPkKSN3sxUmmMqHbmRPegYP1tjcKyrDbtJ";
 
-fn method_json(u: &Uni, id: Id, tag: u32) -> Value {
-  let mut o = json!({"id": u.s(id), "controller": u.dids[id.did as usize]});
-  match tag % 3 {
-    0 => {
-      o["type"] = json!("Ed25519VerificationKey2020");
-      o["publicKeyMultibase"] = json!(format!("{}{}", MB_PREFIX, tag_digits(tag)));
-    }
-    1 => {
-      o["type"] = json!("JsonWebKey");
-      o["publicKeyJwk"] = json!({"kty":"OKP","crv":"Ed25519","x":"11qYAYKxCrfVS_7TyWQHOg7hcvPapiMlrwIaaPcHURo","kid":format!("k{}", tag)});
-    }
+const ACCOUNT_PREFIX: &str = "eip155:1:0xab16a96d359ec26a11e2c2b3d8f8b8942d5bf";
+
+/// The key material of the method with this tag: type, member name, member value. All four kinds of method data
+/// occur: multibase, JWK, base58 and custom method data (a string value or a structured value).
+fn method_material(tag: u32) -> (&'static str, &'static str, Value) {
+  match tag % 4 {
+    0 => ("Ed25519VerificationKey2020", "publicKeyMultibase", json!(format!("{}{}", MB_PREFIX, tag_digits(tag)))),
+    1 => ("JsonWebKey", "publicKeyJwk", json!({"kty":"OKP","crv":"Ed25519","x":"11qYAYKxCrfVS_7TyWQHOg7hcvPapiMlrwIaaPcHURo","kid":format!("k{}", tag)})),
+    2 => ("Ed25519VerificationKey2018", "publicKeyBase58", json!(format!("{}{}", B58_PREFIX, tag_digits(tag)))),
     _ => {
-      o["type"] = json!("Ed25519VerificationKey2018");
-      o["publicKeyBase58"] = json!(format!("{}{}", B58_PREFIX, tag_digits(tag)));
+      if (tag / 8) % 2 == 0 {
+        ("EcdsaSecp256k1RecoveryMethod2020", "blockchainAccountId", json!(format!("{}{}", ACCOUNT_PREFIX, tag_digits(tag))))
+      } else {
+        ("CustomVerificationKey2024", "publicKeyCustom", json!({"curve": "secp256k1", "points": [1, 2, 3], "n": tag}))
+      }
     }
   }
+}
+
+fn method_json(u: &Uni, id: Id, tag: u32) -> Value {
+  let mut o = json!({"id": u.s(id), "controller": u.dids[id.did as usize]});
+  let (ty, member, value) = method_material(tag);
+  o["type"] = json!(ty);
+  o[member] = value;
   o
+}
+
+/// Which construction route produces the entry with this tag when the harness hands it to the library as a value
+/// (insert_method / insert_service / builder start documents): the builder API or deserialisation.
+fn method_via_builder(tag: u32) -> bool {
+  (tag / 4) % 2 == 0
+}
+fn service_via_builder(tag: u32) -> bool {
+  (tag / 2) % 2 == 1
 }
 
 fn service_json(u: &Uni, id: Id, tag: u32) -> Value {
@@ -405,6 +487,7 @@ trait Doc: Clone + PartialEq + Sized {
   fn att(&mut self, q: &Qry, r: MethodRelationship) -> Result<bool, String>;
   fn det(&mut self, q: &Qry, r: MethodRelationship) -> Result<bool, String>;
   fn res_m(&self, q: &Qry, s: Option<MethodScope>) -> Option<&VerificationMethod>;
+  fn res_m_mut(&mut self, q: &Qry, s: Option<MethodScope>) -> Option<&mut VerificationMethod>;
   fn res_s(&self, q: &Qry) -> Option<&Service>;
   fn meths(&self, s: Option<MethodScope>) -> Vec<&VerificationMethod>;
   fn ser(&self) -> Result<String, String>;
@@ -434,30 +517,19 @@ macro_rules! impl_doc_common {
       self.remove_service(id)
     }
     fn att(&mut self, q: &Qry, r: MethodRelationship) -> Result<bool, String> {
-      match &q.url {
-        Some(u) => self.attach_method_relationship(u, r),
-        None => self.attach_method_relationship(q.text.as_str(), r),
-      }
-      .map_err(|e| e.to_string())
+      with_query!(q, |x| self.attach_method_relationship(x, r)).map_err(|e| e.to_string())
     }
     fn det(&mut self, q: &Qry, r: MethodRelationship) -> Result<bool, String> {
-      match &q.url {
-        Some(u) => self.detach_method_relationship(u, r),
-        None => self.detach_method_relationship(q.text.as_str(), r),
-      }
-      .map_err(|e| e.to_string())
+      with_query!(q, |x| self.detach_method_relationship(x, r)).map_err(|e| e.to_string())
     }
     fn res_m(&self, q: &Qry, s: Option<MethodScope>) -> Option<&VerificationMethod> {
-      match &q.url {
-        Some(u) => self.resolve_method(u, s),
-        None => self.resolve_method(q.text.as_str(), s),
-      }
+      with_query!(q, |x| self.resolve_method(x, s))
+    }
+    fn res_m_mut(&mut self, q: &Qry, s: Option<MethodScope>) -> Option<&mut VerificationMethod> {
+      with_query!(q, |x| self.resolve_method_mut(x, s))
     }
     fn res_s(&self, q: &Qry) -> Option<&Service> {
-      match &q.url {
-        Some(u) => self.resolve_service(u),
-        None => self.resolve_service(q.text.as_str()),
-      }
+      with_query!(q, |x| self.resolve_service(x))
     }
     fn meths(&self, s: Option<MethodScope>) -> Vec<&VerificationMethod> {
       self.methods(s)
@@ -583,8 +655,30 @@ impl Env {
     if let Some(m) = self.mcache.get(&(id, tag)) {
       return m.clone();
     }
-    let j = method_json(&self.u, id, tag);
-    let m = catch(|| VerificationMethod::from_json_value(j)).expect("setup: method deserialisation panicked").expect("setup: method rejected");
+    let m = if method_via_builder(tag) {
+      let (ty, member, value) = method_material(tag);
+      let url = self.u.url(id).clone();
+      let did = self.u.dids[id.did as usize].clone();
+      catch(|| {
+        let data = match member {
+          "publicKeyMultibase" => MethodData::PublicKeyMultibase(value.as_str().expect("setup: material").to_string()),
+          "publicKeyBase58" => MethodData::PublicKeyBase58(value.as_str().expect("setup: material").to_string()),
+          "publicKeyJwk" => MethodData::PublicKeyJwk(Jwk::from_json_value(value).expect("setup: Jwk rejected")),
+          name => MethodData::new_custom(CustomMethodData { name: name.to_string(), data: value }),
+        };
+        VerificationMethod::builder(Object::new())
+          .id(url)
+          .controller(CoreDID::parse(&did).expect("setup: CoreDID"))
+          .type_(MethodType::custom(ty))
+          .data(data)
+          .build()
+      })
+      .expect("setup: method builder panicked")
+      .expect("setup: method builder refused")
+    } else {
+      let j = method_json(&self.u, id, tag);
+      catch(|| VerificationMethod::from_json_value(j)).expect("setup: method deserialisation panicked").expect("setup: method rejected")
+    };
     self.mcache.insert((id, tag), m.clone());
     m
   }
@@ -593,7 +687,21 @@ impl Env {
       return s.clone();
     }
     let j = service_json(&self.u, id, tag);
-    let s = catch(|| Service::from_json_value(j)).expect("setup: service deserialisation panicked").expect("setup: service rejected");
+    let s = if service_via_builder(tag) {
+      let url = self.u.url(id).clone();
+      catch(|| {
+        let mut props = Object::new();
+        if let Some(n) = j.get("note") {
+          props.insert("note".to_string(), n.clone());
+        }
+        let endpoint = Url::parse(j["serviceEndpoint"].as_str().expect("setup: endpoint")).expect("setup: endpoint url");
+        Service::builder(props).id(url).type_(j["type"].as_str().expect("setup: type")).service_endpoint(endpoint).build()
+      })
+      .expect("setup: service builder panicked")
+      .expect("setup: service builder refused")
+    } else {
+      catch(|| Service::from_json_value(j)).expect("setup: service deserialisation panicked").expect("setup: service rejected")
+    };
     self.scache.insert((id, tag), s.clone());
     s
   }
@@ -615,6 +723,10 @@ fn ent_of_method(u: &Uni, m: &VerificationMethod) -> Result<(Id, u32), String> {
   let tag = match m.data() {
     MethodData::PublicKeyMultibase(k) | MethodData::PublicKeyBase58(k) => tag_from_digits(k),
     MethodData::PublicKeyJwk(j) => j.kid().and_then(|k| k.strip_prefix('k')).and_then(|k| k.parse().ok()),
+    MethodData::Custom(c) => match &c.data {
+      Value::String(k) => tag_from_digits(k),
+      other => other.get("n").and_then(|n| n.as_u64()).and_then(|n| u32::try_from(n).ok()),
+    },
     _ => None,
   }
   .ok_or_else(|| format!("method {} no longer carries the key material it was given: {:?}", s, m.data()))?;
@@ -717,6 +829,12 @@ impl Cx {
           Ok(Ok(())) => {
             out = Out::Ok;
             self.rep.inc("insert_method_ok");
+            if tag % 4 == 3 {
+              self.rep.inc("insert_method_ok_custom_data");
+            }
+            if method_via_builder(tag) {
+              self.rep.inc("insert_method_ok_builder_made");
+            }
             let mut e = pre.clone();
             if scope == 0 {
               e.vm.push((id, tag));
@@ -783,6 +901,9 @@ impl Cx {
           Ok(Ok(())) => {
             out = Out::Ok;
             self.rep.inc("insert_service_ok");
+            if service_via_builder(tag) {
+              self.rep.inc("insert_service_ok_builder_made");
+            }
             let mut e = pre.clone();
             e.svc.push((id, tag));
             cands.push(e);
@@ -1044,6 +1165,9 @@ impl Cx {
 
     // I2
     self.rep.inc("roundtrip_checks");
+    if model.embedded().iter().any(|(_, t, _)| t % 4 == 3) {
+      self.rep.inc("roundtrip_checks_with_custom_data");
+    }
     let js = match catch(|| doc.ser()) {
       Ok(Ok(s)) => s,
       Ok(Err(e)) => {
@@ -1078,30 +1202,55 @@ impl Cx {
       }
     }
 
-    // I4: resolution
+    // I4: resolution, through the shared and through the mutable entry point (the latter on a copy of the document)
+    let mut doc_mut: D = match catch(|| doc.clone()) {
+      Ok(d) => d,
+      Err(p) => {
+        self.panic_viol(env, st, D::KIND, hist, "clone", &p);
+        return false;
+      }
+    };
     for q in &env.qs {
-      for scope in 0..7usize {
-        // 0 = no scope, 1 = verificationMethod, 2..=6 relationships
+      for scope in 0..14usize {
+        // 0 = no scope, 1 = verificationMethod, 2..=6 relationships; 7..=13 the same through resolve_method_mut
+        let mutable = scope >= 7;
+        let scope = scope % 7;
+        let entry = if mutable { "resolve_method_mut" } else { "resolve_method" };
         let sc: Option<usize> = if scope == 0 { None } else { Some(scope - 1) };
         let acc = acceptable_method(model, q, sc);
-        let got = match catch(|| doc.res_m(q, sc.map(scope_of)).map(|m| ent_of_method(u, m))) {
+        let answer = if mutable {
+          catch(|| doc_mut.res_m_mut(q, sc.map(scope_of)).map(|m| ent_of_method(u, m)))
+        } else {
+          catch(|| doc.res_m(q, sc.map(scope_of)).map(|m| ent_of_method(u, m)))
+        };
+        let got = match answer {
           Ok(None) => None,
           Ok(Some(Ok(e))) => Some(e),
           Ok(Some(Err(e))) => {
             let case = self.case(env, st, D::KIND, hist, None, Some(model), json!({"query": q.text, "error": e}));
-            self.rep.violation("I4-resolve_method-returned-foreign-entry", &e, case);
+            self.rep.violation(&format!("I4-{}-returned-foreign-entry", entry), &e, case);
             continue;
           }
           Err(p) => {
-            self.panic_viol(env, st, D::KIND, hist, "resolve_method", &p);
+            self.panic_viol(env, st, D::KIND, hist, entry, &p);
             continue;
           }
         };
-        self.rep.inc("resolve_method_checks");
-        if acc.len() == 1 {
-          self.rep.inc(if acc[0].is_some() { "resolve_exact_some" } else { "resolve_exact_none" });
+        if mutable {
+          self.rep.inc("resolve_method_mut_checks");
+          if acc.len() == 1 && acc[0].is_some() {
+            self.rep.inc("resolve_mut_exact_some");
+          }
         } else {
-          self.rep.inc("resolve_ambiguous");
+          self.rep.inc("resolve_method_checks");
+          if acc.len() == 1 {
+            self.rep.inc(if acc[0].is_some() { "resolve_exact_some" } else { "resolve_exact_none" });
+          } else {
+            self.rep.inc("resolve_ambiguous");
+          }
+        }
+        if q.pass != Pass::Str && q.pass != Pass::UrlRef {
+          self.rep.inc("resolve_other_query_forms");
         }
         if !acc.contains(&got) {
           let kind = match (&got, acc.iter().any(|a| a.is_some())) {
@@ -1118,16 +1267,25 @@ impl Cx {
             hist,
             None,
             Some(model),
-            json!({"query": q.text, "query_form": q.form, "scope": sc.map(scope_name), "library": show(&got), "model_allows": acc.iter().map(show).collect::<Vec<_>>()}),
+            json!({"entry_point": entry, "query": q.text, "query_form": q.form, "scope": sc.map(scope_name), "library": show(&got), "model_allows": acc.iter().map(show).collect::<Vec<_>>()}),
           );
-          let sig = if !didp.is_empty() && kind == "missed" && q.form == "bare-fragment" {
+          let sig = if !didp.is_empty() && kind == "missed" && q.form.starts_with("bare-fragment") {
             "I4-resolve-missed:bare-fragment-starting-with-did".to_string()
           } else {
-            format!("I4-resolve_method-{}:{}", kind, if q.did.is_some() { "full-id" } else { "fragment-only" })
+            format!("I4-{}-{}:{}", entry, kind, if q.did.is_some() { "full-id" } else { "fragment-only" })
           };
           self.rep.violation(
             &sig,
-            &format!("{}: resolve_method({:?}, {:?}) = {} but the model allows {:?}", D::KIND, q.text, sc.map(scope_name), show(&got), acc.iter().map(show).collect::<Vec<_>>()),
+            &format!(
+              "{}: {}({:?} as {}, {:?}) = {} but the model allows {:?}",
+              D::KIND,
+              entry,
+              q.text,
+              q.form,
+              sc.map(scope_name),
+              show(&got),
+              acc.iter().map(show).collect::<Vec<_>>()
+            ),
             case,
           );
         }
@@ -1160,7 +1318,7 @@ impl Cx {
         let didp = if u.frags[q.frag as usize].starts_with("did") { "+did-prefixed-fragment" } else { "" };
         let show = |e: &Option<(Id, u32)>| e.map(|(i, t)| format!("{} [t={}]", u.s(i), t)).unwrap_or_else(|| "None".into());
         let case = self.case(env, st, D::KIND, hist, None, Some(model), json!({"query": q.text, "query_form": q.form, "library": show(&got), "model_allows": acc.iter().map(show).collect::<Vec<_>>()}));
-        let sig = if !didp.is_empty() && kind == "missed" && q.form == "bare-fragment" {
+        let sig = if !didp.is_empty() && kind == "missed" && q.form.starts_with("bare-fragment") {
           "I4-resolve-missed:bare-fragment-starting-with-did".to_string()
         } else {
           format!("I4-resolve_service-{}:{}", kind, if q.did.is_some() { "full-id" } else { "fragment-only" })
@@ -1420,7 +1578,7 @@ fn exhaustive_ops(env: &Env) -> Vec<Op> {
   let mut qidx: Vec<u16> = Vec::new();
   for i in ids {
     let s = env.u.s(i);
-    qidx.push(env.qs.iter().position(|q| q.url.is_none() && q.text == s).expect("query") as u16);
+    qidx.push(env.qs.iter().position(|q| q.pass == Pass::Str && q.text == s).expect("query") as u16);
   }
   for f in 0..2u8 {
     qidx.push(env.qs.iter().position(|q| q.form == "bare-fragment" && q.frag == f).expect("query") as u16);
@@ -1703,8 +1861,11 @@ fn main() {
     "case = one operation applied to a document reached by a history; histories = (a) every sequence of the 48 operations \
      {insert_method 4 ids x 3 scopes, remove_method_and_scope, insert/remove_service, attach/detach 6 queries x 2 relationships} to the \
      tier's depth from 4 fixed start documents (empty, built, deserialised with dangling references, deserialised with path/query id \
-     variants), (b) seeded random walks of 40 operations over 12 ids x 6 scopes x 5 query forms from random harness-generated start \
-     documents (deserialised or built), on CoreDocument and IotaDocument; non-trivial+distinct = class (document type, operation, \
+     variants), (b) seeded random walks of 40 operations over 12 ids x 6 scopes x 9 query forms (string slice, &String, &DIDUrl, owned \
+     DIDUrl, &RelativeDIDUrl; full id, path/query variant, bare/hash fragment, relative url) from random harness-generated start \
+     documents (deserialised or built), on CoreDocument and IotaDocument; entries carry multibase / JWK / base58 / custom method data \
+     and are made through the builder API or from JSON depending on their tag; every state is resolved through resolve_method, \
+     resolve_method_mut, resolve_service and methods in every scope; non-trivial+distinct = class (document type, operation, \
      scope/id/query class, result, dangling refs present, live refs present, size bucket); distinct_exact = histories distinct by construction",
   );
   let thorough = args.thorough;
